@@ -17,6 +17,11 @@ const char* const PROP_ID = "C01";
 const size_t PROP_MAXLEN_QUICK = 2048;
 const size_t PROP_MAXLEN_THOROUGH = 65535 + 8;
 
+// "after a bounded number of steps": instrumented comparisons allowed for an input of n bytes. Measured maximum over
+// 6e5 quick cases: 1.9e5 per case, 1.4e3 per input byte; the bound leaves two orders of magnitude and room for the
+// quadratic size() walk over thousands of nested 4-byte headers.
+uint64_t prop_step_budget(size_t n) { return 20000000ULL + 200000ULL * n; }
+
 namespace {
 
 const char* const AUX_NAMES[] = {"aux:ICMPExtension", "aux:ICMPExtensionsStructure", "aux:validate_extensions", "aux:RSNInformation",
